@@ -14,6 +14,7 @@ from oracles import ref_lexer as RL
 INDENTS = (2, 4, 1, "\t", 0)
 
 EXTRA = (
+    '{ f(a: """a\n \nb""", b: """x\n\t\n  y""") } ',
     'type T { "field desc" f("arg desc" a: Int = 1): Int @d  """\n  multi\n   line\n  """ g: Int }',
     'enum E { "value desc" A """block""" B @deprecated } input I { "in desc" f: Int = 1 }',
     'directive @x("a1" a: Int = 1, """b\n\nb""" b: Int) on FIELD | QUERY  interface N { "i" id: ID! }',
@@ -74,15 +75,8 @@ def lexable_block(s) -> bool:
     return True
 
 
-def _print_block_string(s: str, indent: int, desc: bool) -> bool:
-    """
-    pre: len(s) <= STR_N
-    pre: 0 <= indent <= 3
-    pre: lexable_block(s)
-    pre: RL.block_string_value(s) == s
-    pre: shard_of(indent * 2 + (1 if desc else 0))
-    post: _
-    """
+def block_roundtrip(s, indent, desc):
+    """shared body (no contract: CrossHair would enforce a callee's pre-conditions)"""
     ind = ("  ", "    ", "\t", "")[concrete_int(indent, 0, 3)]
     node = A.StringValue(value=s, block=True)
     if desc:
@@ -98,6 +92,40 @@ def _print_block_string(s: str, indent: int, desc: bool) -> bool:
         return result(False, True)
     ok = len(toks) == 1 and toks[0][0] == "BlockString" and toks[0][3] == s
     return result(ok, len(s) > 0)
+
+
+def _print_block_string(s: str, indent: int, desc: bool) -> bool:
+    """
+    pre: len(s) <= STR_N
+    pre: 0 <= indent <= 3
+    pre: lexable_block(s)
+    pre: RL.block_string_value(s) == s
+    pre: shard_of(indent * 2 + (1 if desc else 0))
+    post: _
+    """
+    return block_roundtrip(s, indent, desc)
+
+
+SHAPED_N = 2 if thorough() else 1
+BLOCK_SHAPES = (("a\n", "\nb"), ("a\n", ""), (" a", ""), ("", "\n b"), ("a\n  b\n", "c"), ("\ta\n", "\n\tb"), ("a", '"'), ("a\n", "\n\nb"))
+
+
+def block_shape_ok(p, t) -> bool:
+    i = concrete_int(p, 0, len(BLOCK_SHAPES) - 1)
+    v = BLOCK_SHAPES[i][0] + t + BLOCK_SHAPES[i][1]
+    return lexable_block(t) and RL.block_string_value(v) == v
+
+
+def _print_block_shaped(p: int, t: str, indent: int, desc: bool) -> bool:
+    """
+    pre: 0 <= p < len(BLOCK_SHAPES) and len(t) <= SHAPED_N and 0 <= indent <= 3
+    pre: shard_of(p * 2 + (1 if desc else 0))
+    pre: block_shape_ok(p, t)
+    post: _
+    """
+    i = concrete_int(p, 0, len(BLOCK_SHAPES) - 1)
+    s = BLOCK_SHAPES[i][0] + t + BLOCK_SHAPES[i][1]
+    return block_roundtrip(s, indent, desc)
 
 
 def _print_quoted_string(s: str) -> bool:
@@ -131,6 +159,12 @@ CONDITIONS = [
         bound="every parser-producible block string value of <= 2 (thorough 3) symbolic characters, as a value (4 indents) and as a description: printed text is one block string token with that value",
         symbolic={"s": "data: the string content", "indent,desc": "choice"}, assumptions=["re-lexed with the reference lexer"],
         witness={"s": "ab", "indent": 0, "desc": False},
+    ),
+    Cond(
+        name="print_block_shaped", fn=_print_block_shaped, quick=150, thorough=900, per_path=30, shards_quick=2 * len(BLOCK_SHAPES), shards_thorough=2 * len(BLOCK_SHAPES),
+        bound="block string values prefix + t + suffix for %d multi-line shapes (interior lines, indented continuation lines, tab indentation, trailing quote, blank interior lines) with symbolic t of <= 1 (thorough 2) characters, 4 indents, value or description" % len(BLOCK_SHAPES),
+        symbolic={"p": "choice: shape", "t": "data: symbolic middle", "indent,desc": "choice"}, assumptions=["re-lexed with the reference lexer"],
+        witness={"p": 0, "t": " ", "indent": 0, "desc": False},
     ),
     Cond(
         name="print_quoted_string", fn=_print_quoted_string, quick=100, thorough=400, per_path=30, expect_exhaust=False,
